@@ -276,6 +276,10 @@ def const_tree(v):
         return ('str', v['v'])
     if c == 'fn':
         return ('fn', v['def'])
+    if c == 'promoted':
+        return ('const', v.get('ty'), c, v.get('of'), v.get('index'))
+    if c == 'constitem':
+        return ('const', v.get('ty'), c, v.get('def'))
     return ('const', v.get('ty'), c)
 
 
